@@ -212,6 +212,9 @@ var shJ5Text = map[string]string{
 	"message.flatten": "message:{flatten:true}", "message.plain": "message:{}",
 	"object.flatten": "object:{flatten:true}", "object.plain": "object:{}",
 	"any.types": "any:{types:\"google.protobuf.Duration\"}", "any.only_defined": "any:{only_defined:true types:\"google.protobuf.Duration\"}",
+	// the permitted types are a list: declaration order and repeats are part of the schema
+	"any.types_unsorted": "any:{only_defined:true types:\"google.protobuf.Timestamp\" types:\"google.protobuf.Duration\" types:\"google.protobuf.Empty\"}",
+	"any.types_dup":      "any:{types:\"google.protobuf.Timestamp\" types:\"google.protobuf.Duration\" types:\"google.protobuf.Timestamp\"}",
 	"enum.plain": "enum:{}", "oneof.plain": "oneof:{}",
 	"map.single_form": "map:{single_form:\"item\"}", "array.single_form": "array:{single_form:\"item\"}",
 	"string.plain": "string:{}", "integer.rules": "integer:{rules:{minimum:1 exclusive_minimum:true}}", "integer.plain": "integer:{}",
